@@ -544,6 +544,8 @@ def finalize(m, tier):
         "rule": "histories of 30-200 unsolicited block deliveries to one node with the real store attached and 3 greeted "
                 "peers: valid blocks on any fork (both assembly routes), duplicates, orphans, every by-itself defect and "
                 "every in-state defect of the C01/C02/C05 class libraries incl. apply-error blocks, with pending "
-                "transactions pooled; distinct = distinct (block bytes, already-known flag) by digest",
+                "transactions pooled; earlier rejected blocks delivered again; every sequence of 3/5 deliveries from an 8-event "
+                "alphabet on a small chain (exhaustive small scope); the served state is sampled inside the validation window; "
+                "distinct = distinct (block bytes, already-known flag) by digest",
         "floors": floors, "extra": {},
     }
